@@ -32,6 +32,7 @@ NLog == Len(Log)
 SW == [voutTruncated |-> IOEnv.CT_VOUT_TRUNC = "true"]
 BaseIdx == {i \in 1..NLog : Log[i].k = "base"}
 RawIdx  == {i \in 1..NLog : Log[i].k = "raw"}
+RetryIdx == {i \in 1..NLog : Log[i].k = "retry"}
 \* the harness writes a base record before its raw records
 BaseLine == TLCEval([b \in {Log[i].b : i \in BaseIdx} |-> CHOOSE i \in BaseIdx : Log[i].b = b])
 BaseOf(rec) == Log[BaseLine[rec.b]]
@@ -62,6 +63,8 @@ BaseBad(B) ==
   \cup (IF ~WideVout(B.S) /\ Bad_SemHtlc(B.S, HtxSeq(B), B.sem) THEN {"semantic_htlc_signatures"} ELSE {})
   \* the same request again: whatever it returns must again be for the canonical transaction
   \cup (IF B.sem2.ok /\ ~B.sem2.canon THEN {"semantic_retry_signature_target"} ELSE {})
+  \* what the signer holds for the number after the first accepted request is the validated content
+  \cup (IF B.sem.ok /\ ~(B.rec.some /\ RecordedIs(B.rec, B.C)) THEN {"recorded_content_differs"} ELSE {})
 BaseExpected(B) == IF SetupTag(B.S, SW) # "ok" THEN "nosetup"
                    ELSE IF ~B.setup_ok THEN "setup_channel accepts"
                    ELSE StepSem(B.S, B.C, RangeOf(B.canon.outs), SW).tag
@@ -87,13 +90,29 @@ JudgedAt == TLCEval([i \in RawIdx |-> RawJudge(i)])
 Judged == TLCEval({JudgedAt[i] : i \in RawIdx})
 BaseBadAt == TLCEval([i \in BaseIdx |-> BaseBad(Log[i])])
 
+\* retries: a second request for the number of a base, made in the state its accepted first request left
+RetryJudge(i) ==
+  LET rec == Log[i]
+      B   == BaseOf(rec)
+      bad == (IF Bad_RetrySignature(rec.resp) THEN {"retry_signature_target"} ELSE {})
+              \cup (IF ~WideVout(B.S) /\ Bad_RetryHtlc(B.S, HtxSeq(B), rec.ep, rec.resp) THEN {"retry_htlc_signatures"} ELSE {}) IN
+  [i |-> i, ok |-> rec.resp.ok, bad |-> bad, tag |-> StepRetry(B.S, B.C, rec.C2),
+   \* did the request change what the signer holds for the number?
+   rec_changed |-> ~(rec.rec.some /\ RecordedIs(rec.rec, B.C)),
+   \* the request is what the model asked for: the content differs from the base's as its kind says
+   conc |-> (rec.kind = "same") = SameContent(B.C, rec.C2)]
+RetryAt == TLCEval([i \in RetryIdx |-> RetryJudge(i)])
+RetryJudged == TLCEval({RetryAt[i] : i \in RetryIdx})
+
 ---------------------------------------------------------------------------
 \* 1: TLC walks the log; the monitors are the invariant
 VARIABLES l
 Init == l = 0
 Next == l < NLog /\ l' = l + 1
 Spec == Init /\ [][Next]_l
-C04 == l >= 1 => (IF Log[l].k = "base" THEN BaseBadAt[l] = {} ELSE IF Log[l].k = "raw" THEN JudgedAt[l].bad = {} ELSE TRUE)
+C04 == l >= 1 => (IF Log[l].k = "base" THEN BaseBadAt[l] = {}
+                  ELSE IF Log[l].k = "raw" THEN JudgedAt[l].bad = {}
+                  ELSE IF Log[l].k = "retry" THEN RetryAt[l].bad = {} ELSE TRUE)
 
 ---------------------------------------------------------------------------
 \* the report
@@ -111,6 +130,11 @@ DescribeBase(i) ==
   [line |-> i, b |-> Log[i].b, id |-> 0, name |-> Log[i].name, ct |-> Log[i].S.ct, hist |-> Log[i].hist,
    kinds |-> SetToSeq(BaseBadAt[i]), rules |-> << >>, expected |-> BaseExpected(Log[i]), sem |-> Log[i].sem,
    sem2 |-> Log[i].sem2, htx |-> Log[i].htx, S |-> Log[i].S, C |-> Log[i].C]
+DescribeRetry(j) ==
+  LET rec == Log[j.i] B == BaseOf(rec) IN
+  [line |-> j.i, b |-> rec.b, id |-> rec.id, name |-> B.name, ct |-> B.S.ct, hist |-> B.hist, kinds |-> SetToSeq(j.bad),
+   rules |-> << >>, expected |-> j.tag, ep |-> rec.ep, kind |-> rec.kind, C2 |-> rec.C2, resp |-> rec.resp,
+   recorded |-> rec.rec, first |-> B.sem, S |-> B.S, C |-> B.C]
 First(S, n) == LET q == SetToSeq(S) IN [k \in 1..Min({Len(q), n}) |-> q[k]]
 
 Violating     == {j \in Judged : j.bad # {}}
@@ -144,10 +168,28 @@ Report ==
     distinct_cases |-> Cardinality({<<BaseOf(Log[i]).S, BaseOf(Log[i]).C, BaseOf(Log[i]).hist, Log[i].tx, Log[i].ws>> : i \in RawIdx}),
     distinct_nontrivial |-> Cardinality({<<BaseOf(Log[j.i]).S, BaseOf(Log[j.i]).C, BaseOf(Log[j.i]).hist, Log[j.i].tx, Log[j.i].ws>>
                                            : j \in {x \in Judged : ~IsCanonReq(Log[x.i])}}),
-    nviolations  |-> Cardinality(Violating) + Cardinality(ViolatingBase),
+    retries      |-> Cardinality(RetryIdx),
+    retries_accepted |-> Cardinality({j \in RetryJudged : j.ok}),
+    retries_identical_accepted |-> Cardinality({j \in RetryJudged : j.ok /\ Log[j.i].kind = "same"}),
+    retries_identical_same_signatures |-> Cardinality({j \in RetryJudged : j.ok /\ Log[j.i].kind = "same" /\ Log[j.i].resp.same /\ Log[j.i].resp.hsame}),
+    retries_changed_refused |-> Cardinality({j \in RetryJudged : ~j.ok /\ Log[j.i].kind # "same"}),
+    retries_changed_accepted |-> Cardinality({j \in RetryJudged : j.ok /\ Log[j.i].kind # "same"}),
+    retries_recorded_changed |-> Cardinality({j \in RetryJudged : j.rec_changed}),
+    retry_kinds  |-> LET T == {<<Log[i].ep, Log[i].kind, Log[i].resp.tag>> : i \in RetryIdx} IN
+                     [k \in DOMAIN SetToSeq(T) |-> [ep |-> SetToSeq(T)[k][1], kind |-> SetToSeq(T)[k][2], real |-> SetToSeq(T)[k][3],
+                         n |-> Cardinality({i \in RetryIdx : <<Log[i].ep, Log[i].kind, Log[i].resp.tag>> = SetToSeq(T)[k]})]],
+    retry_violations |-> LET V == {j \in RetryJudged : j.bad # {}} IN
+                     [k \in DOMAIN First(V, 20) |-> DescribeRetry(First(V, 20)[k])],
+    retry_divergence_kinds |-> LET DV == {j \in RetryJudged : ~Matches(j.tag, Log[j.i].resp.tag)}
+                                   T == {<<Log[j.i].ep, Log[j.i].kind, j.tag, Log[j.i].resp.tag>> : j \in DV} IN
+                     [k \in DOMAIN SetToSeq(T) |-> [ep |-> SetToSeq(T)[k][1], kind |-> SetToSeq(T)[k][2], expected |-> SetToSeq(T)[k][3],
+                         real |-> SetToSeq(T)[k][4],
+                         n |-> Cardinality({j \in DV : <<Log[j.i].ep, Log[j.i].kind, j.tag, Log[j.i].resp.tag>> = SetToSeq(T)[k]})]],
+    nviolations  |-> Cardinality(Violating) + Cardinality(ViolatingBase) + Cardinality({j \in RetryJudged : j.bad # {}}),
     violations   |-> [k \in DOMAIN First(Violating, 40) |-> Describe(First(Violating, 40)[k])],
     base_violations |-> [k \in DOMAIN First(ViolatingBase, 20) |-> DescribeBase(First(ViolatingBase, 20)[k])],
-    ndivergent   |-> Cardinality(Divergent) + Cardinality(DivergentBase),
+    ndivergent   |-> Cardinality(Divergent) + Cardinality(DivergentBase)
+                     + Cardinality({j \in RetryJudged : ~Matches(j.tag, Log[j.i].resp.tag)}),
     divergence_kinds |-> [k \in DOMAIN SetToSeq(DivKinds) |->
                             LET t == SetToSeq(DivKinds)[k] IN
                             [expected |-> t[1], real |-> t[2],
@@ -171,7 +213,7 @@ Report ==
     real_tags    |-> LET T == {Log[i].resp.tag : i \in RawIdx} IN
                      [k \in DOMAIN SetToSeq(T) |-> [tag |-> SetToSeq(T)[k],
                                                     n |-> Cardinality({i \in RawIdx : Log[i].resp.tag = SetToSeq(T)[k]})]],
-    nconc_bad    |-> Cardinality(ConcBadRaw) + Cardinality(ConcBadBase),
+    nconc_bad    |-> Cardinality(ConcBadRaw) + Cardinality(ConcBadBase) + Cardinality({j \in RetryJudged : ~j.conc}),
     conc_bad     |-> [k \in DOMAIN First(ConcBadRaw, 6) |-> Describe(First(ConcBadRaw, 6)[k])],
     conc_bad_bases |-> [k \in DOMAIN First(ConcBadBase, 6) |-> DescribeBase(First(ConcBadBase, 6)[k])],
     sample       |-> LET S1 == {j \in Granted : IsCanonReq(Log[j.i]) /\ Len(Log[j.i].tx.outs) > 4}
